@@ -25,6 +25,9 @@ PARTIAL = [
     'C04_roundtrip_printed: parametric in (print, parse) with the hypothesis parse (print v) = some v; that Python\'s '
     'shortest repr / float() satisfy it is trusted and exercised by the special-value stream (bit patterns compared)',
     'token level: the character-level lexer / printer of the driver is tied by the correspondence only',
+    'binding by id is proved for variables aligned with the mesh (C04_bound_to_same_ids, any Cfg); for variables with '
+    'their own id order the repaired writer (Cfg.fixed, rowsFor by lookup) is modelled and tied by the correspondence, '
+    'the unrepaired one is refuted by C04_misaligned_counterexample; no general theorem for Cfg.fixed on misaligned input',
 ]
 RULE = ('random combinatorial mesh (1-3 element types out of line, spring, tri, quad, tet, tet2, pyr, prism, hex, hexprism; '
         'tet together with tet2 included; arbitrary distinct node / element ids incl. ~2e9; storage order ascending, '
